@@ -108,6 +108,9 @@ func runC13(c *core.Ctx) {
 
 	c.Doc("C13.forwarding", "one forwarding goroutine per subscription, no go in the loop, channel closed once per exit", 6)
 	ruleForwarders(c, a)
+	// a leaving subscriber does not disturb the others (rule shared with C11)
+	c.Doc("C11.subscriptions", "Subscribe closes events once per exit and removes only its own, still registered handler", 3)
+	ruleSubscriptionsClose(c, a)
 }
 
 func ruleUpdateSignalSelects(c *core.Ctx) {
@@ -300,7 +303,19 @@ func ruleRefcount(c *core.Ctx) {
 			}
 		}
 	}
-	keyShape := func(v ssa.Value) string {
+	var keyShape func(v ssa.Value) string
+	keyShape = func(v ssa.Value) string {
+		// a key built by concatenation: base + ".handler"
+		if bo, ok := core.Canon(v).(*ssa.BinOp); ok && bo.Op == token.ADD {
+			l, r := keyShape(bo.X), keyShape(bo.Y)
+			if l != "?" && r != "?" {
+				return l + r
+			}
+			return "?"
+		}
+		if s, ok := core.ConstString(core.Canon(v)); ok {
+			return s
+		}
 		cr, _ := sprintfBehind(v)
 		if cr == nil {
 			return "?"
@@ -438,6 +453,53 @@ func ruleRefcount(c *core.Ctx) {
 		}
 		c.Check(balanced, rule, "bus.proxy.SubscribeID/registration-id", addPos, "the stored registration id ("+addFmt+") is taken back when the last subscriber leaves",
 			"the registration id stored under "+addFmt+" is added on register but never subtracted on unregister: from the second cycle on a wrong id is unregistered, the server keeps the old registration and every event arrives twice")
+	}
+	// the registration id travels through the shared client state: the id given to
+	// UnregisterEvent is read back from the state entry the registering subscriber
+	// wrote (any of the local subscribers may be the last one to leave)
+	{
+		var reg, unreg ssa.CallInstruction
+		for _, f := range core.AnonFuncs(fn) {
+			for _, call := range core.Calls(f) {
+				name := ""
+				if sc := core.StaticCallee(call); sc != nil {
+					name = sc.Name()
+				} else if cc := call.Common(); cc.IsInvoke() {
+					name = cc.Method.Name()
+				}
+				switch name {
+				case "RegisterEvent":
+					reg = call
+				case "UnregisterEvent":
+					unreg = call
+				}
+			}
+		}
+		bad := ""
+		if reg == nil || unreg == nil {
+			bad = "RegisterEvent / UnregisterEvent calls not found"
+		} else {
+			ra, ua := reg.Common().Args, unreg.Common().Args
+			rid, uid := core.StripConv(core.Canon(ra[len(ra)-1])), core.StripConv(core.Canon(ua[len(ua)-1]))
+			// stored: some State(key, v) call with v the registered id
+			stored := ""
+			for _, f := range core.AnonFuncs(fn) {
+				for _, call := range core.Calls(f) {
+					cc := call.Common()
+					if cc.IsInvoke() && cc.Method.Name() == "State" && len(cc.Args) == 2 && core.StripConv(core.Canon(cc.Args[1])) == rid {
+						stored = keyShape(cc.Args[0])
+					}
+				}
+			}
+			src, _ := core.CallResult(uid)
+			switch {
+			case stored == "" || stored == "?":
+				bad = "the id given to RegisterEvent is not saved in the shared client state: a subscriber other than the one that registered cannot unregister with it"
+			case src == nil || !src.Common().IsInvoke() || src.Common().Method.Name() != "State" || keyShape(src.Common().Args[0]) != stored:
+				bad = "the id given to UnregisterEvent is not read back from the client state entry " + stored + " (it is local to one subscription): when the last subscriber to leave is not the one that registered, a wrong id is unregistered, the service keeps the registration and later subscribers receive every event twice"
+			}
+		}
+		c.Check(bad == "", rule, "bus.proxy.SubscribeID/registration-id-shared", fn.Pos(), "the registration id is saved in and read back from the shared client state", bad)
 	}
 	// the returned cancel always calls the local cancel
 	okCancel := false
